@@ -85,7 +85,10 @@ def run_check(modname, tier, seed, replay=None):
     opts = dict(qto=10000, path_wall=20.0)
     opts.update(getattr(mod, "OPTS", {}).get(tier, {}))
     nproc = int(os.environ.get("VERIF_JOBS", "0")) or min(16, os.cpu_count() or 4)
-    budget = opts.get("wall_budget")  # total wall budget: items not started by then are skipped (stated)
+    # total wall budget: work items not finished by then are skipped (counted in the evidence, exhaustive=false); the thorough tier always has one
+    budget = opts.get("wall_budget", 900 if tier == "thorough" else None)
+    if os.environ.get("VERIF_WALL_BUDGET"):
+        budget = float(os.environ["VERIF_WALL_BUDGET"])
     total = PathStats()
     errors = []
     per_item = []
